@@ -2,6 +2,11 @@
 //
 //	h gen <stream> <n> <tier> <prefix>   write <prefix>.in/.impl/.desc/.stats.json
 //	h run <stream>                       stdin: input lines, stdout: implementation outputs
+//	h shrink <stream> [max]              stdin: input lines, stdout: per line the smaller candidate inputs of the
+//	                                     stream's Shrink (one per line, smallest change first; at most max of
+//	                                     them, spread evenly over the list), then a line "--"
+//	h desc <stream>                      stdin: input lines, stdout: per line its human readable description
+//	                                     (empty line if the stream has no Describe)
 //	h list
 package main
 
@@ -81,6 +86,35 @@ func main() {
 		out := bufio.NewWriter(os.Stdout)
 		for sc.Scan() {
 			fmt.Fprintln(out, hx.SafeRun(st, sc.Text()))
+		}
+		out.Flush()
+	case "shrink", "desc":
+		limit := 0
+		if os.Args[1] == "shrink" && len(os.Args) == 4 {
+			limit, _ = strconv.Atoi(os.Args[3])
+			os.Args = os.Args[:3]
+		}
+		if len(os.Args) != 3 {
+			fmt.Fprintln(os.Stderr, "usage: h "+os.Args[1]+" <stream>")
+			os.Exit(2)
+		}
+		st := hx.Lookup(os.Args[2])
+		if st == nil {
+			fmt.Fprintln(os.Stderr, "unknown stream", os.Args[2])
+			os.Exit(2)
+		}
+		sc := bufio.NewScanner(os.Stdin)
+		sc.Buffer(make([]byte, 1<<20), 1<<28)
+		out := bufio.NewWriter(os.Stdout)
+		for sc.Scan() {
+			if os.Args[1] == "desc" {
+				fmt.Fprintln(out, hx.SafeDescribe(st, sc.Text()))
+				continue
+			}
+			for _, c := range hx.SafeShrink(st, sc.Text(), limit) {
+				fmt.Fprintln(out, c)
+			}
+			fmt.Fprintln(out, hx.ShrinkSep)
 		}
 		out.Flush()
 	default:
